@@ -57,7 +57,9 @@ class Check(CheckBase):
             r = random.Random(f'C01/{self.seed}/piece/{j}')
             cases.append({
                 'seed': r.randrange(1 << 30),
-                'settings': gen.gen_settings(r, chunker=gen.COARSE_CHUNKER if j % 2 == 0 else (500, 10000)),
+                # coarse and fine chunkers on files both within and beyond one read piece (with a fine chunker the upload
+                # queue fills and chunks complete while their file is still being read)
+                'settings': gen.gen_settings(r, chunker=gen.COARSE_CHUNKER if (j // 2) % 2 == 0 else (500, 10000)),
                 'shape': 'root', 'pre': 'none', 'backend': 'mem', 'concurrent': [5, 1, 2, 16][j % 4],
                 'rate_limit': None, 'kind': 'piece',
                 'piece_count': npieces, 'piece_delta': delta,
